@@ -1,4 +1,4 @@
-HOOK_COMMITS = ["4d47cea", "08b09e0", "638d362", "9be4c8c", "faa97ab", "552021a", "27b6e74"]
+HOOK_COMMITS = ["66ae2ff", "e797fbb", "4d47cea", "08b09e0", "638d362", "9be4c8c", "faa97ab", "552021a", "27b6e74"]
 
 _PENDING = "no check registered yet: the model/theorems/correspondence for this property are not built at this commit (see DESIGN.md section 6 for the order of work)"
 NOT_APPLICABLE = {("C%02d" % i): _PENDING for i in range(1, 21)}
